@@ -1613,6 +1613,105 @@ async fn emit_event(
     let _ = event_log.append(&event);
 }
 
+#[cfg(rip_verif)]
+pub(crate) mod verif_hooks {
+    //! Verification-only drivers for the crate-private provider stream types (no behaviour change).
+    use super::*;
+
+    pub(crate) type VerifCall = (u64, String, Option<String>, String, String);
+
+    fn drain(collector: &mut ToolCallCollector) -> Vec<VerifCall> {
+        collector
+            .drain_function_calls()
+            .into_iter()
+            .map(|c| (c.output_index, c.call_id, c.item_id, c.name, c.arguments))
+            .collect()
+    }
+
+    /// Runs the real `OpenResponsesSsePipe` over byte chunks the way
+    /// `stream_openresponses_request` does once the first byte has arrived: `push_bytes` until
+    /// `saw_done`, then `finish()` (or the transport-error frame when the stream broke).
+    pub(crate) async fn run_sse_pipe(
+        log_path: PathBuf,
+        chunks: Vec<Vec<u8>>,
+        seq_offset: u64,
+        compat_missing_item_ids: bool,
+        transport_error: Option<String>,
+    ) -> (Vec<Event>, u64, Vec<VerifCall>, Option<String>) {
+        let log = EventLog::new(log_path).expect("log");
+        let buffer = Arc::new(Mutex::new(Vec::new()));
+        let (sender, _) = broadcast::channel(8);
+        let mut seq = seq_offset;
+        let mut collector = ToolCallCollector::default();
+        {
+            let sink = EventSink {
+                sender: &sender,
+                buffer: &buffer,
+                event_log: &log,
+            };
+            let validation = if compat_missing_item_ids {
+                ValidationOptions::compat_missing_item_ids()
+            } else {
+                ValidationOptions::strict()
+            };
+            let mut pipe = OpenResponsesSsePipe::new(
+                "verif",
+                &mut seq,
+                sink,
+                Some(&mut collector),
+                validation,
+            );
+            let mut utf8_buf = Vec::new();
+            let mut saw_done = false;
+            for chunk in &chunks {
+                saw_done = pipe.push_bytes(&mut utf8_buf, chunk).await;
+                if saw_done {
+                    break;
+                }
+            }
+            if !saw_done {
+                match transport_error {
+                    Some(err) => pipe.emit_transport_error(err).await,
+                    None => {
+                        let _ = pipe.finish().await;
+                    }
+                }
+            }
+        }
+        let frames = buffer.lock().await.clone();
+        let response_id = collector.response_id.clone();
+        let calls = drain(&mut collector);
+        (frames, seq, calls, response_id)
+    }
+
+    /// `ToolCallCollector::observe` over the given events, then `drain_function_calls`.
+    pub(crate) fn collect_calls(events: &[ParsedEvent]) -> (Vec<VerifCall>, Option<String>) {
+        let mut collector = ToolCallCollector::default();
+        for event in events {
+            collector.observe(event);
+        }
+        let response_id = collector.response_id.clone();
+        (drain(&mut collector), response_id)
+    }
+
+    /// `ToolChoiceEnforcement::from_value(value)`: (0 all / 1 none / 2 only, sorted names).
+    pub(crate) fn tool_choice_enforcement(value: &Value) -> (u8, Vec<String>) {
+        match ToolChoiceEnforcement::from_value(value) {
+            ToolChoiceEnforcement::AllFunctions => (0, Vec::new()),
+            ToolChoiceEnforcement::NoTools => (1, Vec::new()),
+            ToolChoiceEnforcement::OnlyFunctions(allowed) => {
+                let mut names: Vec<String> = allowed.into_iter().collect();
+                names.sort();
+                (2, names)
+            }
+        }
+    }
+
+    pub(crate) fn tool_choice_allows(value: &Value, name: &str) -> bool {
+        ToolChoiceEnforcement::from_value(value).allows_function(name)
+    }
+}
+
 #[cfg(test)]
 mod tests {
     use super::*;
